@@ -41,6 +41,14 @@ def generate(seed, tier):
                   (1.9999999999996e18, -6), (-1999999999.96, 1)]:
         yield "initnumb i %s %s %d 5" % (dtok(D(x)), dtok(D(0.96)), sc)
         yield "initnumb i %s %s %d 5" % (dtok(D(x)), dtok(Z), sc)
+    # every decade of the double range in scientific notation: the width of the printed exponent changes at |exponent| = 10, 100
+    # (and a value that rounds UP into the next decade crosses it), with and without su, both signs of the exponent
+    for e in list(range(-110, -88)) + list(range(-12, -7)) + list(range(7, 13)) + list(range(88, 111)) + [-307, -300, -200, 200, 300, 307]:
+        for mant in (1.0, 1.5, 9.96, 9.9996):
+            x = float("%re%d" % (mant, e))
+            yield "initnumb i %s %s %d 5" % (dtok(D(x)), dtok(Z), 2 - e)
+            yield "initnumb i %s %s %d 0" % (dtok(D(-x)), dtok(D(x * 0.013)), 2 - e)
+            yield "initnumb a %s %s 19" % (dtok(D(x)), dtok(D(x * 0.0123)))
     for i in range(300 if tier == "quick" else 6000):
         d, sc = nc.carry_ripple_case(r) if i % 2 == 0 else nc.nines_case(r)
         su = r.choice([Z, D(1999999999.96), D(0.96), D(9.996), nc.carry_ripple_case(r)[0]])
